@@ -433,6 +433,103 @@ def dataframe_shape(df_tree):
     return True
 
 
+# ---------------------------------------------------------------------------------------------------
+# classes of slips that make a result depend on something other than the program: iteration over a set (order depends on
+# the per-process string hash seed), session accessors that cache a stateful builder, builders applied in place to an
+# expression tree that another frame / a registered view shares
+
+def _setlike(n, names):
+    if isinstance(n, (ast.Set, ast.SetComp)):
+        return True
+    if isinstance(n, ast.Call) and isinstance(n.func, ast.Name) and n.func.id in ("set", "frozenset"):
+        return True
+    if isinstance(n, ast.BinOp) and isinstance(n.op, (ast.Sub, ast.BitOr, ast.BitAnd, ast.BitXor)) \
+            and (_setlike(n.left, names) or _setlike(n.right, names)):
+        return True
+    if isinstance(n, ast.Name) and n.id in names:
+        return True
+    if isinstance(n, ast.Call) and isinstance(n.func, ast.Attribute) \
+            and n.func.attr in ("union", "difference", "intersection", "symmetric_difference", "copy") and _setlike(n.func.value, names):
+        return True
+    return False
+
+
+def set_iterations(repo):
+    """sites where an ordered thing (loop, list/tuple/sorted-less comprehension, join, extend) is built from a set"""
+    out = []
+    for d in SCAN_DIRS:
+        full = os.path.join(repo, d)
+        for fn in sorted(os.listdir(full)):
+            if not fn.endswith(".py"):
+                continue
+            tree, _ = py2v.load(os.path.join(full, fn))
+            for f in ast.walk(tree):
+                if not isinstance(f, (ast.FunctionDef, ast.AsyncFunctionDef)):
+                    continue
+                names = set()
+                for _ in range(2):
+                    for n in ast.walk(f):
+                        if isinstance(n, ast.Assign) and len(n.targets) == 1 and isinstance(n.targets[0], ast.Name) \
+                                and _setlike(n.value, names):
+                            names.add(n.targets[0].id)
+                        if isinstance(n, ast.AnnAssign) and isinstance(n.target, ast.Name) and n.value is not None \
+                                and _setlike(n.value, names):
+                            names.add(n.target.id)
+                for n in ast.walk(f):
+                    its = []
+                    if isinstance(n, ast.For):
+                        its.append(n.iter)
+                    if isinstance(n, (ast.ListComp, ast.GeneratorExp, ast.DictComp)):
+                        its += [g.iter for g in n.generators]
+                    if isinstance(n, ast.Call) and isinstance(n.func, ast.Name) and n.func.id in ("list", "tuple", "enumerate", "zip"):
+                        its += n.args
+                    if isinstance(n, ast.Call) and isinstance(n.func, ast.Attribute) and n.func.attr in ("join", "extend"):
+                        its += n.args
+                    if isinstance(n, ast.Starred):
+                        its.append(n.value)
+                    for it in its:
+                        if _setlike(it, names):
+                            out.append(f"{fn[:-3]}.{f.name}:{ast.unparse(it)[:60]}")
+    return sorted(set(out))
+
+
+def accessor_kinds(ses_tree, duck_tree):
+    """(class.accessor, property | cached_property) for the session classes"""
+    out = []
+    for tree, cname in ((ses_tree, "_BaseSession"), (duck_tree, "DuckDBSession")):
+        cls = py2v.find_class(tree, cname)
+        for st in cls.body:
+            if not isinstance(st, ast.FunctionDef):
+                continue
+            for dd in st.decorator_list:
+                k = dotted(dd)
+                if k in ("property", "cached_property", "functools.cached_property"):
+                    out.append((f"{cname}.{st.name}", k.split(".")[-1]))
+    return out
+
+
+def inplace_builders(repo):
+    """calls with copy=False whose receiver is (part of) a frame's expression tree"""
+    out = []
+    for d in SCAN_DIRS:
+        full = os.path.join(repo, d)
+        for fn in sorted(os.listdir(full)):
+            if not fn.endswith(".py"):
+                continue
+            tree, _ = py2v.load(os.path.join(full, fn))
+            par = _parents(tree)
+            for n in ast.walk(tree):
+                if isinstance(n, ast.Call) and isinstance(n.func, ast.Attribute) and any(
+                        k.arg == "copy" and isinstance(k.value, ast.Constant) and k.value.value is False for k in n.keywords):
+                    recv = n.func.value
+                    mentions = any(isinstance(x, ast.Attribute) and x.attr in ("expression", "ctes") for x in ast.walk(recv)) \
+                        and not any(isinstance(x, ast.Call) and isinstance(x.func, ast.Attribute) and x.func.attr == "copy"
+                                    for x in ast.walk(recv))
+                    if mentions:
+                        out.append(f"{_qualname(n, par, fn[:-3])}:{ast.unparse(n.func)[:60]}")
+    return sorted(set(out))
+
+
 def generate(repo: str):
     P = lambda p: py2v.load(os.path.join(repo, p))  # noqa
     norm_tree, norm_src = P("sqlframe/base/normalize.py")
@@ -452,6 +549,9 @@ def generate(repo: str):
     vals, pred, decos = operation_facts(op_tree, df_tree)
     counter0 = session_shape(ses_tree, duck_tree)
     dataframe_shape(df_tree)
+    set_its = set_iterations(repo)
+    accs = accessor_kinds(ses_tree, duck_tree)
+    inplace = inplace_builders(repo)
 
     def b(x):
         return "true" if x else "false"
@@ -479,7 +579,13 @@ def generate(repo: str):
          "Definition registry_accesses : list (string * string * string) := ["]
     L.append(";\n".join(f"  ({s(q)}, {s(r)}, {s(k)})" for q, r, k in triples))
     L.append("].")
+    L.append("Definition set_iterations : list string := [" + "; ".join(s(x.replace('"', "'")) for x in set_its) + "].")
+    L.append("Definition session_accessors : list (string * string) := [" + "; ".join(f"({s(a)}, {s(k)})" for a, k in accs) + "].")
+    L.append("Definition inplace_builder_calls : list string := [" + "; ".join(s(x.replace('"', "'")) for x in inplace) + "].")
     facts = [
+        {"name": "ordered output built from a set (order depends on PYTHONHASHSEED)", "from": ", ".join(SCAN_DIRS), "value": set_its},
+        {"name": "session accessors: property | cached_property", "from": "session.py, duckdb/session.py", "value": [list(x) for x in accs]},
+        {"name": "builders applied in place (copy=False) to a frame's expression", "from": ", ".join(SCAN_DIRS), "value": inplace},
         {"name": "registry accesses", "from": ", ".join(SCAN_DIRS), "value": [list(t) for t in triples],
          "sites": [w for _, _, _, w in acc]},
         {"name": "alias lookup scoped to the expression's CTE sequence ids", "from": "normalize.py: replace_alias_name_with_cte_name",
